@@ -601,6 +601,17 @@ class BaseIOStream:
         if self._read_future is not None:
             futures.append(self._read_future)
             self._read_future = None
+            # The pending read is being failed. Forget its parameters (and
+            # stop using the caller's buffer from read_into) so that they
+            # cannot be applied to a later read on the closed stream.
+            self._read_bytes = self._read_delimiter = self._read_regex = None
+            self._read_max_bytes = None
+            self._read_partial = False
+            if self._user_read_buffer:
+                self._read_buffer = self._after_user_read_buffer or bytearray()
+                self._after_user_read_buffer = None
+                self._read_buffer_size = len(self._read_buffer)
+                self._user_read_buffer = False
         futures += [future for _, future in self._write_futures]
         self._write_futures.clear()
         if self._connect_future is not None:
